@@ -99,13 +99,17 @@ def gen_conn(data: bytes):
         eps = max(3e-6, min(eps, 0.3))
         f = (1 - eps) if tp.chance(128) else (1 + eps)
         d = f * G.cutoff(elems[prev], elems[i])
+        if tp.chance(6):
+            coords.append(coords[prev])     # two atoms in the same place
+            continue
         coords.append(G.add(coords[prev], G.scale(G.draw_unit(tp), d)))
     return {"part": "connectivity", "elements": elems,
             "coords": [list(c) for c in coords],
             "quat": list(G.draw_quat(tp)),
             "shift": list(G.draw_vec(tp, tp.pick([50.0, 1e3, 1e5, 9.9e5]))),
             "perm": tp.shuffle(range(n)),
-            "custom_first": tp.pick([None, None, 0.9, 1.0, 1.5])}
+            "custom_first": tp.pick([None, None, 0.9, 1.0, 1.5]),
+            "reuse": tp.chance(100)}
 
 
 def gen(data: bytes):
@@ -233,9 +237,20 @@ def check_connectivity(ctx, case):
     from stereomolgraph.coords import BondsFromDistance
 
     factor = case.get("custom_first")
+    # one instance and one (mutable) list object for all three observations:
+    # the caller is free to reuse both and to edit the list in between
+    shared = BondsFromDistance() if case.get("reuse") else None
+    types_obj = []
 
     def observe(es, cs, stage):
         arr = np.array(cs, dtype=float).reshape(-1, 3)
+        if shared is not None:
+            types_obj[:] = list(es)
+            with guard(f"C20/connectivity/{stage}/array-reused-instance"):
+                m2 = shared.array(arr, types_obj)
+            m2 = [[int(x) for x in row] for row in m2]
+        else:
+            m2 = None
         if factor:
             # an instance with its own criterion, used first, must not
             # influence what the default criterion answers afterwards
@@ -246,6 +261,11 @@ def check_connectivity(ctx, case):
         with guard(f"C20/connectivity/{stage}/array"):
             mat = BondsFromDistance().array(arr, list(es))
         mat = [[int(x) for x in row] for row in mat]
+        if m2 is not None and m2 != mat:
+            raise Violation(
+                f"C20/connectivity/{stage}/reused-instance-differs",
+                "BondsFromDistance instance used before, same list object "
+                "edited in place: result differs from a fresh instance")
         k = len(es)
         for i in range(k):
             if mat[i][i] != 0:
